@@ -45,6 +45,8 @@ def check(prog: Program, run: Run) -> None:
     _as(run, "C04.R5", "C08.R4", lambda r: c04._non_settable(prog, r))
     _as(run, "C06.R4", "C08.R5", lambda r: c06._const_prefix(prog, r))
     _as(run, "C01.R2", "C08.R6", lambda r: c01._positioning(prog, r))
+    from . import c02
+    _as(run, "C02.R3", "C08.R6", lambda r: c02._emplace_paths(prog, r))
 
 
 def _kw(call: ast.Call, name: str) -> Optional[ast.AST]:
